@@ -65,8 +65,10 @@ def rule_wrap_atomics(ctx):
         ret = strip(p.ret)
         var = ret[2] if ret[0] == "agg" else None
         payload = ("field", "0", ("variant", "Ok" if out == "ok" else "Err", c[0].result))
+        # (the path reader reads the Ok payload of a std compare_exchange as its `current` argument)
+        payloads = (payload, strip(c[0].args[1])) if out == "ok" else (payload,)
         inner = strip(ret[3][0]) if ret[0] == "agg" and ret[3] else None
-        ok = ok and ((out == "ok") == (var == "Ok")) and inner is not None and inner[0] == "agg" and strip(inner[3][0]) == payload
+        ok = ok and ((out == "ok") == (var == "Ok")) and inner is not None and inner[0] == "agg" and strip(inner[3][0]) in payloads
     r.instance("AtomicEpoch::compare_exchange == self.data.compare_exchange(current.data, new.data, ..) with Ok/Err preserved", ok)
     if not ok:
         bad(b.name, "AtomicEpoch::compare_exchange does not forward (current, new) in order or swaps its result variants", b)
@@ -104,9 +106,8 @@ def rule_wrap_atomics(ctx):
             ret = strip(p.ret)
             var = ret[2] if ret[0] == "agg" else None
             seen.add(out)
-            want = ("ok_payload" if out == "ok" else "err_payload", c[0].result)
             want2 = ("field", "0", ("variant", "Ok" if out == "ok" else "Err", c[0].result))
-            has = any(x == want or x == want2 for x in subterms(ret))
+            has = any(x == want2 for x in subterms(ret))
             ok = ok and ((out == "ok") == (var == "Ok")) and has
         ok = ok and seen == {"ok", "err"}
         r.instance("%s forwards (current.inner, new.inner) in order with Ok/Err preserved" % nm.split("::")[-1], ok)
